@@ -171,12 +171,99 @@ def rule_carry(ctx):
             ctx.bad(rid, "try_init|drains-consumed-prefix", "try_init no longer removes the header bytes it consumed from the carry-over buffer", fn=ti)
 
 
+def rule_jbrd_accumulate(ctx):
+    """the jbrd header parser retries from the start: what it could not parse yet must be kept"""
+    from ..facts import op_local, op_place
+    from ..mirutil import Defs
+    rid = "R-JBRD-ACCUMULATE"
+    ctx.rule(rid, "Jbrd::feed_bytes, header not parsed yet: JpegBitstreamData::try_parse answers None while the header is incomplete and is "
+                  "called again from the first byte with the next piece, so every piece offered before has to be in the buffer by then.  "
+                  "On every path from entry to a normal return that called try_parse and neither switched to the parsed state (a store "
+                  "of Jbrd::Init) nor returns an error, Vec::extend_from_slice with the offered bytes has been called (product walk over "
+                  "block x {parsed, appended, initialised, error}).  A fast path that parses the offered slice in place and forgets it "
+                  "on `need more` loses the beginning of a header that arrives in pieces")
+    cr = ctx.prog.crate("jxl_oxide")
+    f = cr.fns.get("jxl_oxide::aux_box::jbrd::Jbrd::feed_bytes")
+    if f is None or f.argc != 2:
+        ctx.anchor_missing(rid, "jxl_oxide::aux_box::jbrd::Jbrd::feed_bytes(&mut self, bytes)")
+        return
+    ctx.seen(f)
+    defs = Defs(f)
+
+    def from_param(l, param=2):
+        seen = set()
+        while l is not None and l not in seen:
+            if l == param:
+                return True
+            seen.add(l)
+            d = defs.single(l)
+            if not d or d[2] != "assign":
+                return False
+            rv = d[3][2]
+            pl = op_place(rv[1]) if rv[0] == "use" else (rv[2] if rv[0] == "ref" else (op_place(rv[2]) if rv[0] == "cast" else None))
+            if pl is None:
+                return False
+            l = pl[0]
+        return False
+
+    ev = {}
+    n_parse = 0
+    for b, t in f.calls():
+        c = callee(t)
+        if not c:
+            continue
+        nm = c.get("res") or c["fn"]
+        if nm.endswith("JpegBitstreamData::try_parse"):
+            ev[b] = "parsed"
+            n_parse += 1
+        elif c["fn"].endswith("Vec::<T, A>::extend_from_slice") and len(t[2]) == 2 and from_param(op_local(t[2][1])):
+            ev[b] = "appended"
+        elif c["fn"].endswith("FromResidual::from_residual"):
+            ev[b] = "error"
+    if not n_parse:
+        ctx.anchor_missing(rid, "the call of JpegBitstreamData::try_parse in Jbrd::feed_bytes")
+        return
+    inits = set()
+    for b, blk in enumerate(f.blocks):
+        for st in blk[0]:
+            if st[0] == "=" and st[2][0] == "agg" and st[2][1][0] == "adt" and st[2][1][1].endswith("jbrd::Jbrd") and st[2][1][2] == "Init":
+                inits.add(b)
+    start = (0, frozenset())
+    seen, work, bad = {start}, [start], False
+    while work:
+        b, fl = work.pop()
+        fl = set(fl)
+        if b in inits:
+            fl.add("initialised")
+        if b in ev:
+            fl.add(ev[b])
+        t = f.term(b)
+        if t[0] == "ret":
+            if "parsed" in fl and not ({"appended", "initialised", "error"} & fl):
+                bad = True
+            continue
+        for x in f.succs(b):
+            if f.is_cleanup(x):
+                continue
+            s2 = (x, frozenset(fl))
+            if s2 not in seen:
+                seen.add(s2)
+                work.append(s2)
+    ctx.count(rid + ".states", len(seen))
+    if bad:
+        ctx.bad(rid, "need-more-keeps-bytes|lost", "a path calls try_parse, gets `need more data` and returns Ok without having appended the offered "
+                "bytes to the buffer: the next call parses from the middle of the header", fn=f)
+    else:
+        ctx.ok(rid, "need-more-keeps-bytes", "every `need more data` return has appended the offered bytes", nontrivial=True, fn=f)
+
+
 def main(pid, tier, repo=None):
     ctx = Ctx(pid, tier, configs=("workspace",), repo=repo)
     rule_feed_consumed(ctx)
     rule_carry(ctx)
     rule_refeed(ctx)
     rule_init_offsets(ctx)
+    rule_jbrd_accumulate(ctx)
     bs = ctx.prog.crate("jxl_bitstream")
     c10.rule_consumed(ctx, bs)
     c10.rule_retry(ctx, bs)
